@@ -5,7 +5,7 @@ PROP = dict(
     corr=["Model/C25Corr.vo"],
     design_ref="DESIGN.md §6 C25",
     technique="Coq theorems (refinement of the file-editing operations of policy.go to an abstract policy machine, invariant 'file parses to the policy in memory') over an executable Gallina model of the go-flags INI reader, addLineToFile, removeLineFromFile and the Policy operations; tied to the code by generated constants/key table and a vm_compute correspondence against the real policy.Policy on temp files",
-    level_text="Machine-checked Coq proofs for ALL operation sequences and ALL pre-existing file contents outside three confirmed defect patterns (textual line removal, unterminated last line, section headers): every operation acts on the effective policy as the abstract machine says, rejected operations change nothing, and after every operation the file parses back to exactly the policy in memory. The three patterns are refuted in Coq (Findings/F_C25_*.v), reproduced on the real code every run and listed as known findings.",
+    level_text="Machine-checked Coq proofs for ALL operation sequences and ALL pre-existing file contents outside two confirmed defect patterns (textual line removal of non-canonically written peer lines, section headers): every operation acts on the effective policy as the abstract machine says, rejected operations change nothing, and after every operation the file parses back to exactly the policy in memory. The two patterns are refuted in Coq (Findings/F_C25_1.v, F_C25_3.v), reproduced on the real code every run and listed as known findings; a third (line glued onto an unterminated last line, F_C25_2.v) was repaired in the repo and is now covered by the theorem.",
     level_note="Trusted: Coq kernel, psh harness/dump, hand-written model of the go-flags INI subset (tied by ~700 generated files/sequences per run). Not modelled: quoted values with backslash escapes, a section named like the option group (go-flags walks sections in map order, result not a function of the file), file-system errors, policies without a file.",
     assumptions=[
         "file bytes are ASCII or non-space UTF-8 (strings.TrimSpace also trims U+0085/U+00A0/...); lines shorter than 64 KiB (bufio.Scanner limit)",
@@ -53,7 +53,7 @@ def build_findings(ctx):
 
 def run(ctx):
     build_findings(ctx)
-    n = 200 if ctx.quick else 4000
+    n = 120 if ctx.quick else 2400
     d = ctx.harness("c25", args=["-n", n])
     if d is None:
         return
